@@ -222,6 +222,9 @@ pub fn run_c15(ctx: &Ctx) -> i32 {
         // keys elsewhere, key 0 and u64::MAX
         keys.push((2, vec![1]));
         keys.push((0, vec![3]));
+        // keys that agree with a colliding key in the low 32 bits (and in table and bucket)
+        keys.push((1 + (l << 32), vec![5]));
+        keys.push((1 + l + (l << 40), vec![6]));
         if !quick {
             keys.push((u64::MAX, vec![4]));
             keys.push((3, vec![1]));
